@@ -71,31 +71,34 @@ Ltac bits :=
 (* ---- the global model moves threads by the conformance automaton ---- *)
 Lemma gstep_tstep s t e s' : gstep s t e = Some s' -> tstep t (pcs s t) e = Some (pcs s' t).
 Proof.
-  unfold gstep. destruct (tstep t (pcs s t) e) as [p'|]; [|discriminate]. intros Hs. f_equal.
+  unfold gstep. destruct (disposed s && negb (is_dtor_of s t && negb (pc_idle (pcs s t)))); [discriminate|].
+  destruct (tstep t (pcs s t) e) as [p'|]; [|discriminate]. intros Hs. f_equal.
   destruct (pcs s t); cbv zeta in Hs;
     repeat match type of Hs with
     | (if ?c then _ else _) = Some _ => destruct c; try discriminate
     | (match ?x with _ => _ end) = Some _ => destruct x; try discriminate
     end; try discriminate; injection Hs as <-;
-    unfold entry_fx, leave_fx, notify_fx, take_queue;
+    unfold entry_fx, leave_fx, notify_fx, take_queue, sub_pend, set_pend;
     repeat match goal with |- context [if ?c then _ else _] => destruct c end; cbn; rewrite upd_same; reflexivity.
 Qed.
 
 (* ---- the steps of the global model as rules (gstep_gs below: every step of gstep is one of them) ---- *)
 Definition sub_next (v : variant) : pc := match v with VSync => PInvRead VSync | _ => PRet 0 end.
-Definition grp_noise (p : pc) : Prop := (exists v, p = PPost v true) \/ (exists tmo, p = PWaitG tmo) \/ p = PNotifyG.
+Definition grp_noise (p : pc) : Prop :=
+  (exists v, p = PPost v true) \/ (exists tmo, p = PWaitG tmo) \/ p = PNotifyG \/ p = PDtorPost.
 Definition rm (t : Z) (l : list Z) : list Z := remove Z.eq_dec t l.
 
 Inductive gs (s : gst) (t : Z) : gst -> Prop :=
-| G_call op arg p : pcs s t = PIdle -> call_entry op arg = Some p -> gs s t (set_pc s t p)
-| G_entry v : (pcs s t = PIdle /\ v = VAsync) \/ pcs s t = PInvRead v ->
-    gs s t (entry_fx (set_pc s t (inv_entry v (flags s))) (flags s))
+| G_call op arg p : pcs s t = PIdle -> call_entry op arg = Some p -> op <> OP_RELEASE -> gs s t (set_pc s t p)
+| G_entry v n : (pcs s t = PIdle /\ v = VAsync /\ 0 < pendsub s /\ n = pendsub s - 1) \/ (pcs s t = PInvRead v /\ n = pendsub s) ->
+    gs s t (entry_fx (set_pend (set_pc s t (inv_entry v (flags s))) n) (flags s))
 | G_ret r : pcs s t = PRet r -> gs s t (set_pc s t PIdle)
 | G_retain v : pcs s t = PSubmit v -> gs s t (set_qref (set_pc s t (PSubmitCas v)) (qref s + 2) (t :: hands s))
 | G_cas_ok v dq : pcs s t = PSubmitCas v -> queue s = 0 -> dq <> 0 ->
-    gs s t (set_qref (set_queue (set_pc s t (sub_next v)) dq) (qref s) (rm t (hands s)))
+    gs s t (sub_pend v (set_qref (set_queue (set_pc s t (sub_next v)) dq) (qref s) (rm t (hands s))))
 | G_cas_fail v : pcs s t = PSubmitCas v -> queue s <> 0 -> gs s t (set_pc s t (PSubmitRel v))
-| G_subrel v : pcs s t = PSubmitRel v -> gs s t (set_qref (set_pc s t (sub_next v)) (qref s - 2) (rm t (hands s)))
+| G_subrel v : pcs s t = PSubmitRel v ->
+    gs s t (sub_pend v (set_qref (set_pc s t (sub_next v)) (qref s - 2) (rm t (hands s))))
 | G_setthread f x : pcs s t = PSetThread f -> gs s t (set_thread (set_pc s t (PBodyNext VDirect f)) x)
 | G_begin v f : pcs s t = PBodyNext v f -> gs s t (set_run (set_pc s t (PInBody v f)) (bodies s + 1) (fin s))
 | G_end v f : pcs s t = PInBody v f -> gs s t (set_run (set_pc s t (after_body v f)) (bodies s) (fin s + 1))
@@ -128,7 +131,18 @@ Inductive gs (s : gst) (t : Z) : gst -> Prop :=
     gs s t (set_flags (set_pc s t (PRet (if r =? 0 then 0 else 1)))
               (if r =? 0 then Z.lor (flags s) WAITED else Z.land (flags s) NOT_WAITING) (cancelled s) None)
 | G_notify_perf p : pcs s t = PNotifyPerf -> p = PCrash \/ p = PNotifyG -> gs s t (set_pc s t p)
-| G_notify : pcs s t = PNotifyG -> hasgrp s = true -> gs s t (notify_fx (set_pc s t (PRet 0))).
+| G_notify : pcs s t = PNotifyG -> hasgrp s = true -> gs s t (notify_fx (set_pc s t (PRet 0)))
+(* the end of the object's life *)
+| G_release : pcs s t = PIdle -> active s = [] -> hasgrp s = true -> pendsub s = 0 -> disposed s = false ->
+    gs s t (set_life (set_pc s t PDtorPerf) (pendsub s) true (Some t) (dleave s))
+| G_dtor_perf : pcs s t = PDtorPerf ->
+    gs s t (set_pc s t (if performed s =? 0 then PDtorLeave else PDtorPost))
+| G_dtor_leave : pcs s t = PDtorLeave -> hasgrp s = true -> gcount s <> 0 ->
+    gs s t (let s2 := leave_fx (set_pc s t PDtorPost) in set_life s2 (pendsub s2) (disposed s2) (dtor s2) true)
+| G_dtor_leave_crash : pcs s t = PDtorLeave -> hasgrp s = true -> gcount s = 0 -> gs s t (set_pc s t PCrash)
+| G_dtor_queue : pcs s t = PDtorPost ->
+    gs s t (take_queue (set_pc s t (if queue s =? 0 then PRet 0 else PDtorRel)) t)
+| G_dtor_rel : pcs s t = PDtorRel -> gs s t (set_qref (set_pc s t (PRet 0)) (qref s - 2) (rm t (hands s))).
 
 Lemma wrap_inc a : wrapsz 4 (a + 1) = wrapsz 4 (u32 a + 1).
 Proof. unfold wrapsz, u32. change (2 ^ (8 * 4)) with 4294967296. rewrite Zplus_mod_idemp_l. reflexivity. Qed.
@@ -141,6 +155,7 @@ Ltac split_ands H :=
 Lemma gstep_gs s t e s' : gstep s t e = Some s' -> gs s t s'.
 Proof.
   intros Hs. unfold gstep in Hs.
+  destruct (disposed s && negb (is_dtor_of s t && negb (pc_idle (pcs s t)))) eqn:Hal; [discriminate|].
   destruct (tstep t (pcs s t) e) as [p'|] eqn:Hts; [|discriminate]. cbv zeta in Hs.
   unfold tstep in Hts. destruct (is_grp e) eqn:Hg.
   - (* events on the private group's word *)
@@ -174,14 +189,33 @@ Proof.
       destruct (ek e =? DVG_NOTIFY) eqn:K.
       * injection Hts as <-. injection Hs as <-. apply G_notify; auto.
       * destruct (raw e); [|discriminate]. injection Hts as <-. injection Hs as <-.
-        rewrite <- Hpc. apply G_noise; [right; right; exact Hpc | auto].
+        rewrite <- Hpc. apply G_noise; [right; right; left; exact Hpc | auto].
+    + (* PDtorLeave *)
+      destruct (ev_is e DV_ADD MO_RELEASE 0 && (eb e =? G_INTERVAL) && (esz e =? 8)); [|discriminate].
+      injection Hts as <-.
+      destruct (hasgrp s) eqn:Hh; [|discriminate]. cbn [andb] in Hs.
+      destruct (Z.land (ea e) G_VALUE_MASK =? 0) eqn:E1, (gcount s =? 0) eqn:E2; cbn in Hs; try discriminate;
+        injection Hs as <-.
+      * apply (G_dtor_leave_crash s t); auto. apply Z.eqb_eq. exact E2.
+      * apply (G_dtor_leave s t); auto. apply Z.eqb_neq. exact E2.
+    + (* PDtorPost: noise *)
+      destruct (raw e); [|discriminate]. injection Hts as <-. injection Hs as <-.
+      rewrite <- Hpc. apply G_noise.
+      * right; right; right. exact Hpc.
+      * intros [X|[? X]]; rewrite Hpc in X; discriminate.
   - destruct (pcs s t) eqn:Hpc; try discriminate.
     + (* PIdle *)
       destruct (ev_kind e DVU_CALL) eqn:K.
-      * injection Hs as <-. eapply G_call; eauto.
+      * destruct (Z.eqb_spec (ea e) OP_RELEASE) as [Er|Er].
+        -- assert (Ep : p' = PDtorPerf) by (rewrite Er in Hts; cbn in Hts; congruence). subst p'.
+           destruct (active s) eqn:Ea; [|discriminate]. destruct (hasgrp s) eqn:Hh; [|discriminate].
+           destruct (Z.eqb_spec (pendsub s) 0) as [Ez|]; [|discriminate]. cbn [andb] in Hs. injection Hs as <-.
+           apply G_release; auto. destruct (disposed s); [|reflexivity]. cbn in Hal. rewrite andb_false_r in Hal. discriminate Hal.
+        -- injection Hs as <-. eapply G_call; eauto.
       * destruct (ev_is e DV_LOAD MO_PLAIN OFF_FLAGS); [|discriminate]. injection Hts as <-.
-        destruct (Z.eqb_spec (ea e) (flags s)) as [Ea|]; [|discriminate]. injection Hs as <-. rewrite ?Ea.
-        apply (G_entry s t VAsync). left. auto.
+        destruct (Z.eqb_spec (ea e) (flags s)) as [Ea|]; [|discriminate]. cbn [andb] in Hs.
+        destruct (Z.ltb_spec 0 (pendsub s)) as [Lp|]; [|discriminate]. injection Hs as <-. rewrite ?Ea.
+        apply (G_entry s t VAsync (pendsub s - 1)). left. auto.
     + (* PRet *)
       destruct (ev_kind e DVU_RET && (b2z (nz (ea e)) =? r)); [|discriminate]. injection Hts as <-. injection Hs as <-.
       eapply G_ret; eauto.
@@ -200,7 +234,7 @@ Proof.
     + (* PInvRead *)
       destruct (ev_is e DV_LOAD MO_PLAIN OFF_FLAGS); [|discriminate]. injection Hts as <-.
       destruct (Z.eqb_spec (ea e) (flags s)) as [Ea|]; [|discriminate]. injection Hs as <-. rewrite ?Ea.
-      apply (G_entry s t v). right. auto.
+      apply (G_entry s t v (pendsub s)). right. auto.
     + (* PSetThread *)
       destruct (ev_is e DV_STORE MO_PLAIN OFF_THREAD && (eb e =? t)); [|discriminate]. injection Hts as <-.
       injection Hs as <-. apply G_setthread; auto.
@@ -255,18 +289,39 @@ Proof.
       destruct (ev_is e DV_LOAD MO_RELAXED OFF_PERF && (esz e =? 4)); [|discriminate]. injection Hts as <-.
       destruct (u32 (ea e) =? performed s); [|discriminate]. injection Hs as <-.
       apply G_notify_perf; auto. destruct (1 <? s32 (ea e)); auto.
+    + (* PDtorPerf *)
+      destruct (ev_is e DV_LOAD MO_PLAIN OFF_PERF); [|discriminate]. injection Hts as <-.
+      destruct (Z.eqb_spec (u32 (ea e)) (performed s)) as [E|]; [|discriminate]. injection Hs as <-. rewrite E.
+      apply G_dtor_perf; auto.
+    + (* PDtorPost: the plain read of dbpd_queue *)
+      destruct (ev_is e DV_LOAD MO_PLAIN OFF_QUEUE); [|discriminate]. injection Hts as <-.
+      destruct (Z.eqb_spec (ea e) (queue s)) as [Ea|]; [|discriminate]. injection Hs as <-. rewrite ?Ea.
+      apply G_dtor_queue; auto.
+    + (* PDtorRel *)
+      destruct (ev_kind e DVQ_RELEASE2); [|discriminate]. injection Hts as <-. injection Hs as <-. apply G_dtor_rel; auto.
+Qed.
+
+(* after the last reference is gone only the destroying thread moves, and only while it is inside the release *)
+Lemma gstep_alive s t e s' : gstep s t e = Some s' ->
+  disposed s = false \/ (dtor s = Some t /\ pc_idle (pcs s t) = false).
+Proof.
+  unfold gstep. destruct (disposed s); [|auto]. cbn [andb]. unfold is_dtor_of.
+  destruct (dtor s) as [d|]; [|discriminate]. destruct (Z.eqb_spec d t) as [->|]; [|discriminate]. cbn [andb].
+  destruct (pc_idle (pcs s t)); [discriminate|]. auto.
 Qed.
 
 Ltac sf := cbn [flags performed queue thread hasgrp gcount pending pcs cancelled bodies fin ninv leaves nreg fcnt waiter
-  qref hands set_pc set_flags set_perf set_queue set_thread set_run set_grp set_qref] in *.
+  qref hands active pendsub disposed dtor dleave set_pc set_flags set_perf set_queue set_thread set_run set_grp set_qref
+  set_life set_pend sub_pend] in *.
 Ltac unfx := unfold entry_fx, leave_fx, notify_fx, take_queue in *.
 
-Lemma call_entry_cases op arg p : call_entry op arg = Some p ->
+Lemma call_entry_cases op arg p : call_entry op arg = Some p -> op <> OP_RELEASE ->
   p = PInvRead VDirect \/ p = PSubmit VSync \/ p = PSubmit VAsync \/ p = PCancel \/ p = PTestRead \/
   p = PWaitOr arg \/ p = PNotifyPerf.
 Proof.
-  unfold call_entry. intros H.
-  repeat match type of H with (if ?c then _ else _) = _ => destruct c end; inversion H; tauto.
+  unfold call_entry. intros H Hr.
+  repeat match type of H with (if ?c then _ else _) = _ => destruct c eqn:? end; inversion H; try tauto.
+  exfalso. apply Hr. apply Z.eqb_eq. assumption.
 Qed.
 
 (* ================= invariant A: flag bits, counters, the group count ================= *)
@@ -282,7 +337,7 @@ Definition InvA (s : gst) : Prop :=
   Z.testbit (flags s) 3 = negb (hasgrp s) /\
   0 <= bodies s /\ 0 <= fin s /\ 0 <= ninv s /\ (1 <= ninv s -> 1 <= fin s) /\
   performed s = ninv s mod 4294967296 /\
-  (if hasgrp s then gcount s + leaves s = 1 /\ 0 <= leaves s <= 1 /\ (leaves s = 1 -> 1 <= ninv s)
+  (if hasgrp s then gcount s + leaves s = 1 /\ 0 <= leaves s <= 1 /\ (leaves s = 1 -> 1 <= ninv s \/ dleave s = true)
    else gcount s = 0 /\ leaves s = 0 /\ ninv s = 0) /\
   forall u, tinvA s u.
 
@@ -318,10 +373,9 @@ Proof.
   - (* call *) unfold InvA; sf. repeat split; auto.
     intros u. destruct (Z.eq_dec u t) as [->|Ne].
     + unfold tinvA; sf. rewrite upd_same.
-      destruct (call_entry_cases _ _ _ H0) as [->|[->|[->|[->|[->|[->| ->]]]]]]; exact I.
+      destruct (call_entry_cases _ _ _ H0 H1) as [->|[->|[->|[->|[->|[->| ->]]]]]]; exact I.
     + apply OT; sf; auto; try lia. intros; apply upd_other; auto.
   - (* entry: the single read of the flags *)
-    assert (Hp : pcs s t = PIdle \/ exists v, pcs s t = PInvRead v) by (destruct H as [[? _]|?]; eauto).
     unfold entry_fx. destruct (hasb (flags s) WAITED) eqn:HD.
     + unfold InvA; sf. repeat split; auto.
       intros u. destruct (Z.eq_dec u t) as [->|Ne].
@@ -440,6 +494,27 @@ Proof.
     destruct (gcount s =? 0); unfold InvA; sf; (repeat split; auto);
       intros u; (destruct (Z.eq_dec u t) as [->|Ne]; [unfold tinvA; sf; rewrite upd_same; exact I|]);
       apply OT; sf; auto; try lia; intros; apply upd_other; auto.
+  - (* release of the last reference *) unfold InvA; sf. repeat split; auto.
+    intros u. destruct (Z.eq_dec u t) as [->|Ne]; [unfold tinvA; sf; rewrite upd_same; exact I|].
+    apply OT; sf; auto; try lia. intros; apply upd_other; auto.
+  - (* destructor: performed? *) unfold InvA; sf. repeat split; auto.
+    intros u. destruct (Z.eq_dec u t) as [->|Ne]; [unfold tinvA; sf; rewrite upd_same; destruct (performed s =? 0); exact I|].
+    apply OT; sf; auto; try lia. intros; apply upd_other; auto.
+  - (* destructor: leave *) rewrite H0 in I8, I2. destruct I8 as (G1 & G2 & G3).
+    unfold leave_fx; sf.
+    destruct (gcount s - 1 =? 0); cbv zeta; unfold InvA; sf; rewrite H0; (repeat split; auto; try lia);
+      intros u; (destruct (Z.eq_dec u t) as [->|Ne]; [unfold tinvA; sf; rewrite upd_same; exact I|]);
+      apply OT; sf; auto; try lia; intros; apply upd_other; auto.
+  - (* destructor: leave on a zero count *) unfold InvA; sf. repeat split; auto.
+    intros u. destruct (Z.eq_dec u t) as [->|Ne]; [unfold tinvA; sf; rewrite upd_same; exact I|].
+    apply OT; sf; auto; try lia. intros; apply upd_other; auto.
+  - (* destructor: dbpd_queue *) unfold take_queue; sf.
+    destruct (queue s =? 0); unfold InvA; sf; (repeat split; auto);
+      intros u; (destruct (Z.eq_dec u t) as [->|Ne]; [unfold tinvA; sf; rewrite upd_same; exact I|]);
+      apply OT; sf; auto; try lia; intros; apply upd_other; auto.
+  - (* destructor: release of the queue *) unfold InvA; sf. repeat split; auto.
+    intros u. destruct (Z.eq_dec u t) as [->|Ne]; [unfold tinvA; sf; rewrite upd_same; exact I|].
+    apply OT; sf; auto; try lia. intros; apply upd_other; auto.
 Qed.
 
 (* ================= invariant N: the notifications of the (abstract) private group ================= *)
@@ -602,7 +677,7 @@ Proof.
   intros G W. pose proof W as (W1 & W2 & W3 & WT). pose proof (WT t) as (T1 & T2 & T3).
   destruct G.
   - (* call *) wlocal s t W H.
-    destruct (call_entry_cases _ _ _ H0) as [->|[->|[->|[->|[->|[->| ->]]]]]]; reflexivity.
+    destruct (call_entry_cases _ _ _ H0 H1) as [->|[->|[->|[->|[->|[->| ->]]]]]]; reflexivity.
   - (* entry *)
     assert (Hnw : in_wait (pcs s t) = false) by (destruct H as [[-> _]| ->]; reflexivity).
     assert (Hnc : pcs s t <> PCrash) by (destruct H as [[-> _]| ->]; discriminate).
@@ -790,7 +865,7 @@ Lemma InvQ_step s t s' : gs s t s' -> InvQ s -> InvQ s'.
 Proof.
   intros G Q. pose proof Q as (Q1 & Q2 & Q3).
   destruct G.
-  - qlocal s t Q H. destruct (call_entry_cases _ _ _ H0) as [->|[->|[->|[->|[->|[->| ->]]]]]]; reflexivity.
+  - qlocal s t Q H. destruct (call_entry_cases _ _ _ H0 H1) as [->|[->|[->|[->|[->|[->| ->]]]]]]; reflexivity.
   - assert (Hh : holds (pcs s t) = false) by (destruct H as [[-> _]| ->]; reflexivity).
     unfold entry_fx. destruct (hasb (flags s) WAITED); [|destruct (hasb (flags s) CANCELED)];
       apply (InvQ_local s t _ Q Hh); sf; auto; try (intros ? ?; apply upd_other; assumption);
